@@ -1591,11 +1591,11 @@ class ArmiObject(metaclass=CompositeModelType):
             nuc: val * factor for nuc, val in self.getNumberDensities().items()
         }
         self.setNumberDensities(densitiesScaled)
-        # Update detailedNDens
-        if self.p.detailedNDens is not None:
+        # Update detailedNDens and pinNDens. Not every level of the hierarchy defines these
+        # parameters (e.g. blocks have no pinNDens, cores have neither), so look them up safely.
+        if self.p.get("detailedNDens") is not None:
             self.p.detailedNDens *= factor
-        # Update pinNDens
-        if self.p.pinNDens is not None:
+        if self.p.get("pinNDens") is not None:
             self.p.pinNDens *= factor
 
     def clearNumberDensities(self):
